@@ -144,7 +144,7 @@ def _live_view(post):
 
 
 def _same_expect(a, b):
-    return a['r'] == b['r'] and _live_view(a['post']) == _live_view(b['post'])
+    return a['r'] == b['r'] and _live_view(a['post']) == _live_view(b['post']) and a.get('deferred') == b.get('deferred')
 
 
 def join_cases(ops):
@@ -152,16 +152,31 @@ def join_cases(ops):
     case the deviated expectation is attached only to the first step at which the two readings
     disagree (up to there both readings describe the same trajectory); the replay engine stops a
     case at a known deviation."""
-    ideal, real = {}, {}
+    ideal, realp = {}, {}
     for op in ops:
         if 'steps' not in op:
             continue
-        (real if op.get('dev') else ideal)[case_key(op)] = op
+        if op.get('dev'):
+            # indexed by every prefix of the program: the deviated reading may not contain the whole ideal
+            # program (a later step can be impossible there), but a replay stops at the first known deviation
+            pre_s = json.dumps(op['pre'], sort_keys=True)
+            acc = []
+            for s in op['steps']:
+                acc.append([s['c'], s['cmd']])
+                realp.setdefault(pre_s + json.dumps(acc), s)
+        else:
+            ideal[case_key(op)] = op
     cases = []
     for k, op in ideal.items():
         steps = []
-        rop = real.get(k)
-        agree = rop is not None
+        pre_s = json.dumps(op['pre'], sort_keys=True)
+        acc = []
+        rsteps = []
+        for s in op['steps']:
+            acc.append([s['c'], s['cmd']])
+            rsteps.append(realp.get(pre_s + json.dumps(acc)))
+        rop = {'steps': rsteps}
+        agree = rsteps[0] is not None
         diverged = False
         dvs = []
         for i, s in enumerate(op['steps']):
@@ -169,6 +184,10 @@ def join_cases(ops):
                   'ideal': {'r': s['r'], 'post': s['post'], 'rel': s.get('rel', []), 'tol': s.get('tol', [])}}
             if 'proto' in s:
                 st['ideal']['proto'] = s['proto']
+            if 'deferred' in s:
+                st['ideal']['deferred'] = s['deferred']
+            if agree and rop['steps'][i] is None:
+                agree = False
             if agree:
                 rs = rop['steps'][i]
                 dvs = sorted(set(dvs) | set(rs['dv']))
@@ -181,6 +200,8 @@ def join_cases(ops):
                                       'tol': rs.get('tol', []), 'dv': dvs}
                         if 'proto' in rs:
                             st['real']['proto'] = rs['proto']
+                        if 'deferred' in rs:
+                            st['real']['deferred'] = rs['deferred']
             steps.append(st)
         cases.append({'fam': op.get('fam', ''), 'pre': op['pre'], 'steps': steps})
     cases.sort(key=lambda c: json.dumps([c['pre'], [s['cmd'] for s in c['steps']]], sort_keys=True))
@@ -221,6 +242,8 @@ def b2s(arr):
 
 
 def cmd_text(cmd):
+    if cmd and not isinstance(cmd[0], list):
+        return '(%s ms pass)' % cmd[0]
     return ' '.join(json.dumps(b2s(a)) if (not a or any(c < 33 or c > 126 for c in a)) else b2s(a) for a in cmd)
 
 
@@ -326,6 +349,8 @@ class Verdict:
                     self.record_known(dv, k.get('cmd', '') + ' :: ' + (k.get('detail') or '')[:300])
             if r['status'] == 'ok' or r['status'] == 'known':
                 continue
+            if r['status'] == 'skip':
+                continue
             if r['status'] in ('viol', 'crash', 'noreply'):
                 if len(self.violations) < max_report:
                     self.record_violation(c, r, engine)
@@ -339,6 +364,11 @@ class Verdict:
         e['ok'] += sum(1 for r in results if r['status'] == 'ok')
         e['known'] += sum(1 for r in results if r['status'] == 'known')
         e['violations'] += sum(1 for r in results if r['status'] in ('viol', 'crash', 'noreply'))
+        nskip = sum(1 for r in results if r['status'] == 'skip')
+        if nskip:
+            e['skipped_timing'] = e.get('skipped_timing', 0) + nskip
+            if nskip * 50 > len(results):
+                self.inconclusive.append('%s: %d of %d cases skipped for timing' % (engine, nskip, len(results)))
 
     def add_samples(self, cases, n=3):
         for c in cases[:n]:
